@@ -348,18 +348,48 @@ impl BigRat {
 	}
 
 	pub(crate) fn floor<I: Interrupt>(self, int: &I) -> FResult<Self> {
-		let float = self.into_f64(int)?.floor();
-		Self::from_f64(float, int)
+		self.round_to_integer(int, |negative, has_remainder, _| {
+			negative && has_remainder
+		})
 	}
 
 	pub(crate) fn ceil<I: Interrupt>(self, int: &I) -> FResult<Self> {
-		let float = self.into_f64(int)?.ceil();
-		Self::from_f64(float, int)
+		self.round_to_integer(int, |negative, has_remainder, _| {
+			!negative && has_remainder
+		})
 	}
 
+	// halfway cases are rounded away from zero, like `f64::round`
 	pub(crate) fn round<I: Interrupt>(self, int: &I) -> FResult<Self> {
-		let float = self.into_f64(int)?.round();
-		Self::from_f64(float, int)
+		self.round_to_integer(int, |_, _, at_least_half| at_least_half)
+	}
+
+	/// Rounds to an integer with exact integer arithmetic. `away_from_zero`
+	/// receives (is the number negative, is there a fractional part, is the
+	/// fractional part at least one half) and decides whether the magnitude is
+	/// rounded up.
+	fn round_to_integer<I: Interrupt>(
+		mut self,
+		int: &I,
+		away_from_zero: impl FnOnce(bool, bool, bool) -> bool,
+	) -> FResult<Self> {
+		self = self.simplify(int)?;
+		let (mut quotient, remainder) = self.num.divmod(&self.den, int)?;
+		let negative = self.sign == Sign::Negative && self.num != 0.into();
+		let has_remainder = remainder != 0.into();
+		let at_least_half = remainder.clone().add(&remainder) >= self.den;
+		if away_from_zero(negative, has_remainder, at_least_half) {
+			quotient = quotient.add(&1.into());
+		}
+		Ok(Self {
+			sign: if negative && quotient != 0.into() {
+				Sign::Negative
+			} else {
+				Sign::Positive
+			},
+			num: quotient,
+			den: 1.into(),
+		})
 	}
 
 	pub(crate) fn bitwise<I: Interrupt>(
